@@ -658,8 +658,9 @@ func (s *impStack) script(run *impRun, logs []ledger.Log) *impRun {
 			}
 			if pristineFull {
 				// C11 writability: the same request on the source gives the same answers; ids continue above the imported ones
+				var onA []wres
 				if !diverged && !s.dead {
-					_, onA := s.write(s.a, a.Path, a.Now, a.Ops)
+					_, onA = s.write(s.a, a.Path, a.Now, a.Ops)
 					for i := range shapes {
 						if i >= len(onA) {
 							break
@@ -677,6 +678,11 @@ func (s *impStack) script(run *impRun, logs []ledger.Log) *impRun {
 				}
 				for i, w := range shapes {
 					if !w.Ok || !w.Committed {
+						continue
+					}
+					if i < len(a.Ops) && a.Ops[i].IK != "" && w.LogID <= maxLog && i < len(onA) && onA[i].Ok && onA[i].LogID == w.LogID {
+						// an idempotent replay of an imported log (a bulk answer carries no hit flag): the source, given the same
+						// request, answers with the same stored log; nothing was committed
 						continue
 					}
 					if w.LogID <= maxLog || (w.TxID >= 0 && w.TxID <= maxTx) {
